@@ -16,7 +16,7 @@ import (
 
 type c12 struct{}
 
-func init() { core.Register(c12{}) }
+func init()            { core.Register(c12{}) }
 func (c12) ID() string { return "C12" }
 
 type c12Case struct {
